@@ -27,7 +27,7 @@ def tokens(name, fn, a, b, rnd):
     with np.errstate(all="ignore"):
         phi = float(fn(a, b))
         fin = 1 if math.isfinite(phi) else 0
-        t = dict(lim=name, sa=sgn(a), sb=sgn(b), fin=fin)
+        t = dict(kind="tok", lim=name, sa=sgn(a), sb=sgn(b), fin=fin)
         if fin:
             t["sp"] = sgn(phi)
             t["c2"] = cmp_tok(phi, 2 * min(abs(Fraction(a)), abs(Fraction(b))))
@@ -115,7 +115,12 @@ def run(tier):
         pairs.append((sp[0], sp[1], None))
     for name, fn in lims.items():
         for (a, b, g) in pairs:
-            t, phi = tokens(name, fn, a, b, rnd)
+            try:
+                t, phi = tokens(name, fn, a, b, rnd)
+            except Exception as ex:     # a limiter that raises on finite slopes (plain Python floats included) is an observation
+                recs.append(dict(kind="raised", id=len(recs) + 1, lim=name, fa=repr(a), fb=repr(b), fphi="",
+                                 what="%s: %s" % (type(ex).__name__, str(ex)[:80])))
+                continue
             if g is not None and name in ("minmod", "superbee") and t["fin"]:
                 x, y, d, e = g
                 t["exact"] = 1
